@@ -148,6 +148,14 @@ func main() {
 			h.budget = n
 		}
 	}
+	if prop == "conc" {
+		g, per := 8, 6
+		if tier == "thorough" {
+			g, per = 32, 12
+		}
+		runConc(h, seed, g, per)
+		return
+	}
 	// replay mode: ops come from a file, only impl answers are produced
 	if prop == "replay" {
 		data, err := os.ReadFile(os.Args[5])
